@@ -31,6 +31,7 @@ Every operator is written index by index in the order the code writes (`fcppt::a
 | `assign`, `assignConv`                       | `detail/assign.hpp`, the converting `operator=(object<T, N, OtherStorage> const &)` |
 | `copyAssign`                                 | the implicit copy assignment (same storage type): array copy for static storage, *rebinding* for views |
 | `copy`                                       | `detail/copy.hpp` (converting constructor into static storage)           |
+| `assignValue`                                | `dest = static_<T, N>(src)`: assignment from a temporary                 |
 | `Ref.getUnsafe`, `Ref.atI`, `setElem`        | `get_unsafe(i)` (non-const, returns a reference), `at<I>`, `x() = …`      |
 | `MatRef`, `MatRef.atR`, `MatRef.getUnsafe`, `MatRef.atRC` | `matrix::object::get_unsafe` (non-const), `at_r`, `at_r_c` as lvalues |
 -/
@@ -141,6 +142,12 @@ def copyAssign {len n : Nat} (self other : Ref len n) (mem : Mem len) : Mem len 
 /-- `detail::copy<Result>(_arg)`: `Result{array::init(linear_access<Index>(_arg.storage()))}`, the converting
     constructor into static storage: a new static object -/
 def copy {len n : Nat} (arg : Ref len n) (mem : Mem len) : Storage n := fromArray (Vector.ofFn fun i => arg.read mem i)
+
+/-- `dest = Static(arg)`: the converting constructor builds a static temporary (`copy`), which is then assigned — by the copy
+    assignment of static storage or by the converting `operator=` of a view; both write the elements of the temporary in
+    index order.  The temporary lives outside the modelled memory, nothing can alias it. -/
+def assignValue {len n : Nat} (dest : Ref len n) (src : Storage n) (mem : Mem len) : Mem len :=
+  loop n (fun i mem => dest.write mem i (src.get i)) mem
 
 /-! ## element references -/
 
